@@ -240,6 +240,12 @@ Lemma unhashable_refused {K : Type} (keqb : K -> K -> bool) (h : Z -> Z -> K) (s
   hashable (pe_proof e) = false -> att_step keqb h s (AoSubmit e) = s.
 Proof. intros H. unfold att_step. destruct (as_won s); [reflexivity|]. now rewrite H. Qed.
 
+Lemma winner_removes {K : Type} (keqb : K -> K -> bool) (h : Z -> Z -> K) (s : att_state) sn ord w :
+  as_won s = None ->
+  verify_evidence keqb (code_key h) ord sn (map ev_of (as_evs s)) = Winner w ->
+  as_won (att_step keqb h s (AoProcess sn ord)) = Some w.
+Proof. intros H V. unfold att_step. now rewrite H, V. Qed.
+
 (** Non-vacuity: three equal validators; 1 answers a, 2 answers b: the run removes nothing; a proof-less
     submission of 3 is refused; 2 corrects itself to a: the next run removes the request with a. *)
 Example history_removes_after_resubmission :
